@@ -1,9 +1,75 @@
 (** C08 (persistent sessions) — pinned statements.  Only [Theorem .. exact ..]. *)
-From Rumqtt Require Import Router.SessionResume.
+From Rumqtt Require Import Router.SessionReads Router.RetainedReplay Log.Spec.
+
+Theorem c08_resume : forall cfg ops st outs id conn outg trk cr orc1 orc2 st1 out1 st2 out2,
+  run_from cfg ops = Ok (st, outs) ->
+  slab_get (r_conns st) id = Some conn -> slab_get (r_obufs st) id = Some outg ->
+  slab_get (r_trackers st) id = Some trk ->
+  c_clean conn = false -> cr_client cr = c_client conn -> cr_clean cr = false ->
+  step_with st orc1 (OpDisconnect id) = Ok (st1, out1) ->
+  (cf_max_connections (r_cfg st1) <=? slab_len (r_conns st1)) = false ->
+  step_with st1 orc2 (OpConnect cr) = Ok (st2, out2) ->
+  exists id' conn' o' t',
+    slab_get (r_conns st2) id' = Some conn' /\ slab_get (r_obufs st2) id' = Some o' /\
+    get_tracker st2 id' = Ok t' /\
+    slab_get (r_acks st2) id' =
+      Some {| a_committed := AConnAck id' true :: map APubRel (o_pubrels outg); a_recorded := [] |} /\
+    c_subs conn' = c_subs conn /\ o_pubrels o' = o_pubrels outg /\ o_inflight o' = [] /\
+    tr_reqs t' = map (fun rq => match first_cursor (o_inflight outg) (dr_idx rq) with
+                                | Some cu => set_dr_cursor rq cu
+                                | None => rq
+                                end)
+                     (tr_reqs trk ++ snd (dl_clean (r_datalog st) id)).
+Proof. exact resume_ops. Qed.
+
+Theorem c08_resume_reachable : forall cfg st id reason st1 conn outg trk connB link st',
+  reachable cfg st ->
+  handle_disconnection st id reason = Ok st1 ->
+  slab_get (r_conns st) id = Some conn -> slab_get (r_obufs st) id = Some outg ->
+  slab_get (r_trackers st) id = Some trk ->
+  c_clean conn = false -> c_client connB = c_client conn -> c_clean connB = false ->
+  (cf_max_connections (r_cfg st1) <=? slab_len (r_conns st1)) = false ->
+  handle_new_connection st1 connB link = Ok st' ->
+  exists id' conn' o' t',
+    slab_get (r_conns st') id' = Some conn' /\ slab_get (r_obufs st') id' = Some o' /\
+    get_tracker st' id' = Ok t' /\
+    slab_get (r_acks st') id' =
+      Some {| a_committed := AConnAck id' true :: map APubRel (o_pubrels outg); a_recorded := [] |} /\
+    c_subs conn' = c_subs conn /\ o_pubrels o' = o_pubrels outg /\ o_inflight o' = [] /\
+    tr_reqs t' = map (fun rq => match first_cursor (o_inflight outg) (dr_idx rq) with
+                                | Some cu => set_dr_cursor rq cu
+                                | None => rq
+                                end)
+                     (tr_reqs trk ++ snd (dl_clean (r_datalog st) id)).
+Proof. exact resume_reachable. Qed.
+
+Theorem c08_resume_reads : forall st id rq st' rq' status o d all,
+  forward_device_data st id rq = Ok (st', rq', status) -> get_obuf st id = Ok o ->
+  dr_group rq = None -> dr_fwd_retained rq = false -> status <> SInflightFull ->
+  native_get (r_datalog st) (dr_idx rq) = Ok d ->
+  let slots := if dr_qos rq =? 0 then cf_max_outgoing (r_cfg st) else MAX_INFLIGHT - lenN (o_inflight o) in
+  let p := pos_of (d_log d) (dr_cursor rq) in
+  WF pubdata_size (d_log d) all -> Issued (d_log d) (dr_cursor rq) ->
+  2 * lenN all < U64 -> snd (dr_cursor rq) + slots < U64 ->
+  exists from_log ns tail,
+    map fst from_log = firstn (N.to_nat slots) (skipn (N.to_nat p) all) /\
+    map (fun e => snd (snd e)) from_log = Nseq p (length from_log) /\
+    out_of st' (o_link o) = out_of st (o_link o) ++ ns ++ tail /\
+    (tail = [] \/ tail = [NUnschedule]) /\
+    Forall2 (fun (e : pubdata * cursor) n =>
+               exists p' pr', n = NForward (Some (snd e)) p' pr' /\ same_msg (dr_qos rq) (fst (fst e)) p')
+            from_log ns /\
+    snd (dr_cursor rq') = p + lenN from_log /\
+    p + lenN from_log <= lenN all.
+Proof. exact forward_log_window. Qed.
 
 Theorem c08_session_invariant : forall cfg st,
   reachable cfg st -> SessInv st.
 Proof. exact reachable_SessInv. Qed.
+
+Theorem c08_ids_invariant : forall cfg st,
+  reachable cfg st -> IdInv st.
+Proof. exact reachable_IdInv. Qed.
 
 Theorem c08_connect : forall st conn link st' st1,
   SessInv st ->
